@@ -8,7 +8,7 @@ every derived form rewritten into core forms by an independent desugarer written
 definitions (checks/sexp.py) gives the same per-form values and the same tick trace (sub-forms
 evaluated as often and in the order R7RS says)."""
 import random
-from . import common as C, proggen as P, progrun as R, sexp
+from . import common as C, proggen as P, progrun as R, sexp, pyeval
 
 PROP = "C05"
 MODULES = ["RuschmProofs.C05Shapes", "RuschmProofs.C05Meaning"]
@@ -72,6 +72,7 @@ def run(rep, tier, rng):
     model = C.run_driver(cases)
     res = R.compare(rep, cases, impl, model, "derived forms (RuschmGen/Grammar.lean + RuschmModel/Macro.lean <-> grammar.sld + macros.rs)")
     used = {}
+    judged = [0]
     for i, forms in enumerate(progs):
         if "o%d" % i not in res or "d%d" % i not in res:
             continue
@@ -85,6 +86,18 @@ def run(rep, tier, rng):
             rep.nontrivial(text)
         if len(rep.cov["samples"]) < 4 and i % 37 == 0:
             rep.sample({"program": forms[:2], "desugared": cases[2 * i + 1][2][2:4], "results": o[0][1:3], "ticks": o[1][:60]})
+        # the independent reference evaluator (Python; derived forms by their R7RS definitions, core forms by the R7RS
+        # evaluation rules): values of the forms and the order in which the probes fire
+        ref = pyeval.run_program(forms)
+        if ref is not None:
+            judged[0] += 1
+            if o[0][1:] != ref[0] or o[1].split() != ref[1]:
+                j = next((j for j in range(len(ref[0])) if o[0][1 + j] != ref[0][j]), None)
+                rep.violation({"what": "the program does not yield the values and the order of evaluation R7RS assigns "
+                                       "(independent reference evaluator)", "program": cases[2 * i][2], "form_index": j,
+                               "implementation": o[0][1 + j] if j is not None else {"ticks": o[1]},
+                               "reference": ref[0][j] if j is not None else {"ticks": " ".join(ref[1])}})
+                continue
         if o[0] != d[0] or o[1] != d[1]:
             j = next((j for j in range(len(o[0])) if o[0][j] != d[0][j]), None)
             rep.violation({"what": "a derived form does not behave like its R7RS definition in core forms",
@@ -92,6 +105,7 @@ def run(rep, tier, rng):
                            "with_derived_forms": o[0][j] if j is not None else {"ticks": o[1]},
                            "with_core_forms": d[0][j] if j is not None else {"ticks": d[1]}})
     rep.extra["programs_using_form"] = used
+    rep.extra["programs_judged_by_the_reference_evaluator"] = judged[0]
     # the names the bundled templates introduce or rely on, used by the PROGRAM (the random programs above avoid them):
     # each probe has the value R7RS assigns; a deviation listed under the open finding `non-hygienic-capture` is reported as
     # KNOWN-FINDING, any other deviation (or a deviation on a probe not listed there) as a violation
